@@ -17,6 +17,7 @@ class NetStore:
         self.factory_eui = bytes(eui64)
         self.custom_eui = None
         self.mfg_custom_eui = FF8
+        self.active_eui = bytes(eui64)   # the address the stack runs with: tokens are read when the NCP (re)starts
         # persistent (NV) network state
         self.stored = False          # a network is stored (formed and not left)
         self.running = False         # the stack is up (after form / networkInit)
@@ -33,7 +34,15 @@ class NetStore:
     # ---- helpers
     @property
     def eui64(self):
-        return self.custom_eui if self.custom_eui is not None else self.factory_eui
+        return self.active_eui
+
+    def token_eui(self):
+        """address selected by the tokens: NV3 restored EUI64, else the MFG custom EUI64, else the factory one"""
+        if self.custom_eui is not None:
+            return self.custom_eui
+        if self.mfg_custom_eui != FF8:
+            return self.mfg_custom_eui
+        return self.factory_eui
 
     def st(self, name, ok, bad="ERR_FATAL"):
         """status value of the right family for command `name` (first result field)"""
@@ -66,6 +75,7 @@ class NetStore:
 
     def on_reset(self):
         self.running = False
+        self.active_eui = self.token_eui()
 
     def status_event(self, up):
         t = self.t
